@@ -105,7 +105,28 @@ def sym_optint(L: Logic, name: str):
     raise OutOfSubset("optint inputs are expanded into variants by the contract")
 
 
-BUILDERS = {"seq": sym_seq, "bool": sym_bool, "graph": sym_graph, "nodeset": sym_nodeset, "node": sym_node, "digraph": sym_nx,
+def sym_expr(L: Logic, name: str):
+    from .exprs import ExprTheory, VExpr
+    if getattr(L, "E", None) is None:
+        from .extract import Repo
+        L.E = ExprTheory(L, _REPO[0])
+    t = z3.Const(f"{name}.e", L.E.Expr)
+    L.E.reg(t)
+    return VExpr(t), [], Probe(name, "expr", (t,))
+
+
+def sym_eseq(L: Logic, name: str):
+    from .exprs import ExprTheory, VESeq
+    if getattr(L, "E", None) is None:
+        L.E = ExprTheory(L, _REPO[0])
+    t = z3.Const(f"{name}.s", L.E.ESeq)
+    L.E.regs(t)
+    return VESeq(t), [], Probe(name, "eseq", (t,))
+
+
+_REPO = [None]
+
+BUILDERS = {"expr": sym_expr, "eseq": sym_eseq, "seq": sym_seq, "bool": sym_bool, "graph": sym_graph, "nodeset": sym_nodeset, "node": sym_node, "digraph": sym_nx,
             "ugraph": lambda L, n: sym_nx(L, n, directed=False), "pairs": sym_pairs}
 
 
